@@ -23,6 +23,11 @@ Case formats (JSON-able, sufficient for `replay`):
            pairwise disjoint subregions; one Region per subregion is built with the real
            constructor and handed to `add_region` in the given order (the public way to add
            regions one by one); the numbering / link clauses are evaluated afterwards.
+  offers:  {"fn": "offers", "L": 80, "circ": bool, "subs": [[s, e], ...], "order": [i, ...]}
+           subregions that MAY overlap; one Region per subregion is offered to `add_region` in the
+           given order.  Each offer must be refused with ValueError iff it shares a base with a
+           region already held; afterwards the held regions are pairwise disjoint and the
+           numbering / link clauses hold.
 """
 from __future__ import annotations
 
@@ -56,7 +61,10 @@ RULE = ("layout: every multiset of 1..4 areas (protocluster-derived candidate cl
         "pool of 3 protoclusters, 2 subregions and 3 genes; non-trivial = contains a clear_* or "
         "a create_*; regions: every choice of 3 (4) pairwise disjoint one-cell subregions of the "
         "8 cells, plus the variants with an origin-spanning two-cell subregion, added as Regions "
-        "through add_region in every order; distinct = distinct case.")
+        "through add_region in every order; offers: every set of 3 ring arcs (line intervals) of "
+        "<= 3 cells incl. origin-spanning ones, overlapping or not, offered to add_region in every "
+        "order, and every set of 4 of <= 2 cells in 6 orders (thorough: all 24); "
+        "distinct = distinct case.")
 EXHAUSTIVE = {"quick": True, "thorough": False}
 
 CELL = 10
@@ -257,6 +265,29 @@ def _region_orders(tier: str) -> Iterable[Dict[str, Any]]:
             yield {"fn": "regions", "L": LENGTH, "circ": circular, "subs": subs, "order": list(order)}
 
 
+def _offers(tier: str) -> Iterable[Dict[str, Any]]:
+    """Region sets that may overlap, offered one by one to `add_region`."""
+    quick = tier == "quick"
+    plans = [
+        (True, 3, _ring_arcs(3, False), None),
+        (False, 3, _line_arcs(3), None),
+        (True, 4, _ring_arcs(2, False), 6 if quick else None),
+        (False, 4, _line_arcs(2), 6 if quick else None),
+    ]
+    if not quick:
+        plans.append((True, 3, _ring_arcs(6, True), None))
+    for circular, count, arcs, limit in plans:
+        orders = list(itertools.permutations(range(count)))
+        if limit:      # a reduced slice: the given order, its reverse, and the rotations
+            keep = [orders[0], orders[-1]] + [tuple(range(k, count)) + tuple(range(k)) for k in range(1, count)]
+            keep += [(1, 0) + tuple(range(2, count))]
+            orders = sorted(set(keep))
+        for combo in itertools.combinations(arcs, count):
+            for order in orders:
+                yield {"fn": "offers", "L": LENGTH, "circ": circular,
+                       "subs": [list(arc) for arc in combo], "order": list(order)}
+
+
 # ---------------------------------------------------------------------------------------------
 # sharding
 # ---------------------------------------------------------------------------------------------
@@ -269,6 +300,7 @@ def shards(tier: str, seed: int) -> list:
     out = [{"fn": "layout", "tier": tier, "index": i, "of": LAYOUT_SHARDS} for i in range(LAYOUT_SHARDS)]
     out += [{"fn": "history", "tier": tier, "index": i, "of": HISTORY_SHARDS} for i in range(HISTORY_SHARDS)]
     out += [{"fn": "regions", "tier": tier, "index": i, "of": 4} for i in range(4)]
+    out += [{"fn": "offers", "tier": tier, "index": i, "of": 8} for i in range(8)]
     if tier != "quick":
         out += [{"fn": "random", "tier": tier, "index": i, "of": 16} for i in range(16)]
     return out
@@ -278,7 +310,8 @@ def run_shard(shard: Dict[str, Any], run: Any) -> None:
     if shard["fn"] == "random":
         _run_random(run)
         return
-    source = {"layout": _layouts, "history": _histories, "regions": _region_orders}[shard["fn"]](shard["tier"])
+    source = {"layout": _layouts, "history": _histories, "regions": _region_orders,
+              "offers": _offers}[shard["fn"]](shard["tier"])
     for case in itertools.islice(source, shard["index"], None, shard["of"]):
         if run.out_of_time():               # budget exhausted: the run is reported as truncated
             return
@@ -582,8 +615,61 @@ def _evaluate_regions(case: Dict[str, Any]) -> Tuple[List[Tuple[str, bool, str]]
     return results, True
 
 
+def _evaluate_offers(case: Dict[str, Any]) -> Tuple[List[Tuple[str, bool, str]], bool]:
+    """One Region per subregion is offered to add_region in the given order; an offer must be
+    refused (ValueError) iff it shares a base with a region the record already holds."""
+    from antismash.common.secmet.features import Region
+    length = case["L"]
+    record = make_record(length, case["circ"])
+    subs = [make_subregion(arc, f"s{i}", length) for i, arc in enumerate(case["subs"])]
+    masks = [arc_mask(arc, length) for arc in case["subs"]]
+    held: List[int] = []
+    wrong = []
+    try:
+        for sub in subs:
+            record.add_subregion(sub)
+    except Exception as err:  # pylint: disable=broad-except
+        return [(NO_EXC, False, describe_exception(err))], True
+    for index in case["order"]:
+        clash = [h for h in held if masks[h] & masks[index]]
+        try:
+            region = Region(subregions=[subs[index]])
+        except Exception as err:  # pylint: disable=broad-except
+            return [(NO_EXC, False, "Region(): " + describe_exception(err))], True
+        try:
+            record.add_region(region)
+            accepted = True
+        except ValueError as err:
+            accepted = False
+            if "overlap" not in str(err):
+                return [(NO_EXC, False, describe_exception(err))], True
+        except Exception as err:  # pylint: disable=broad-except
+            return [(NO_EXC, False, describe_exception(err))], True
+        if accepted == bool(clash):
+            wrong.append(f"offer {case['subs'][index]} was {'accepted' if accepted else 'refused'} while the "
+                         f"record held {[case['subs'][h] for h in held]} (overlapping: "
+                         f"{[case['subs'][h] for h in clash]})")
+        listed = any(r is region for r in record.get_regions())
+        if listed != accepted:
+            wrong.append(f"offer {case['subs'][index]}: accepted={accepted} but listed={listed}")
+        if accepted:
+            held.append(index)
+    results = [("offer-refused-iff-overlaps-held", not wrong, "; ".join(wrong))]
+    regions = list(record.get_regions())
+    region_masks = [location_mask(r.location) for r in regions]
+    clash2 = [(location_parts(regions[a].location), location_parts(regions[b].location))
+              for a in range(len(regions)) for b in range(a + 1, len(regions)) if region_masks[a] & region_masks[b]]
+    results.append(("regions-disjoint", not clash2, f"regions sharing a base: {clash2}"))
+    results.extend(_state_clauses(record))
+    nontrivial = any(masks[a] & masks[b] for a in range(len(masks)) for b in range(a + 1, len(masks))) or \
+        any(spans_origin(arc) for arc in case["subs"])
+    return results, nontrivial
+
+
 def _evaluate(case: Dict[str, Any]) -> Tuple[List[Tuple[str, bool, str]], bool]:
     try:
+        if case["fn"] == "offers":
+            return _evaluate_offers(case)
         if case["fn"] == "regions":
             return _evaluate_regions(case)
         if case["fn"] == "layout":
@@ -798,8 +884,60 @@ def _is_f2(clause: str, case: Dict[str, Any]) -> bool:
     return sorted(sections) != sorted(components(len(arcs), pairs))
 
 
+def _pinned_offers_deviate(case: Dict[str, Any]) -> bool:
+    """Model of the PINNED Record.add_region on arcs: the held regions are kept sorted
+    (origin-spanning first, then by start, longest first); an offer is compared with them in that
+    order and the scan STOPS at the first held region the offer sorts before, so held regions
+    further on are never tested for overlap.  True if, somewhere in the sequence of offers, the
+    model accepts an offer that shares a base with a held region (or refuses one that does not).
+    Used ONLY to delimit the known-finding class."""
+    length = case["L"]
+    arcs = case["subs"]
+    masks = [arc_mask(arc, length) for arc in arcs]
+
+    def key(index: int) -> Tuple[int, int]:
+        start, end = arcs[index]
+        if start >= end:
+            return (start - length, -(length - start + end))
+        return (start, -(end - start))
+
+    def before(a: int, b: int) -> bool:          # CDSCollection.__lt__
+        if spans_origin(arcs[a]) == spans_origin(arcs[b]) and masks[b] & ~masks[a] == 0 and masks[a] != masks[b]:
+            return True
+        return key(a) < key(b)
+
+    held: List[int] = []
+    for offer in case["order"]:
+        should_refuse = any(masks[h] & masks[offer] for h in held)
+        refused = False
+        position = 0
+        for place, existing in enumerate(held):
+            if masks[existing] & masks[offer]:
+                refused = True
+                break
+            if before(offer, existing):
+                position = place
+                break
+            position = place + 1
+        if refused != should_refuse:
+            return True
+        if not refused:
+            held.insert(position, offer)
+    return False
+
+
+def _is_f3(clause: str, case: Dict[str, Any]) -> bool:
+    """add_region stops scanning the held regions at the first one the new region sorts before:
+    an offer that sorts early (an origin-spanning region, which sorts first) and does not overlap
+    the first held region is accepted although it shares a base with a later held region."""
+    if case.get("fn") != "offers" or _plain(clause) not in ("offer-refused-iff-overlaps-held", "regions-disjoint"):
+        return False
+    return _pinned_offers_deviate(case)
+
+
 # C06-F1 (single first/last fix-up of the sweep) is repaired in /repo and has no class any more:
 # a recurrence is reported as an unclassified failure.
 FINDING_CLASSES = {
     "C06-F2": _is_f2,
+    "C06-F3": _is_f3,
 }
